@@ -267,6 +267,11 @@ fn run_shard<E: Check>(
     let budget = E::budget(&opts.id, opts.tier);
     let out = RefCell::new(ShardOut::default());
     let failed = Cell::new(false);
+    let last_nontrivial = Cell::new(false);
+    // VERIF_DUMP_SEEDS=<dir>: write the raw generator bytes of a few non-trivial cases (seed corpus
+    // for the libFuzzer targets, which share the generator)
+    let dump_dir: Option<PathBuf> = std::env::var("VERIF_DUMP_SEEDS").ok().map(PathBuf::from);
+    let dumped = Cell::new(0u32);
 
     // one case through the oracle, with bookkeeping
     let run_one = |case: &E::Case| -> Result<(), Failure> {
@@ -285,6 +290,7 @@ fn run_shard<E: Check>(
         }
         match r {
             Ok(()) => {
+                last_nontrivial.set(cx.nontrivial);
                 if counting && cx.nontrivial {
                     let js = serde_json::to_vec(case).unwrap();
                     let h = fnv(&js);
@@ -351,7 +357,16 @@ fn run_shard<E: Check>(
         let mut g = Gen::new(&bytes);
         let case = check.generate(&mut g);
         match run_one(&case) {
-            Ok(()) => Ok(()),
+            Ok(()) => {
+                if let Some(dir) = &dump_dir {
+                    if last_nontrivial.get() && dumped.get() < 3 && shard < 8 {
+                        let _ = std::fs::create_dir_all(dir);
+                        let _ = std::fs::write(dir.join(format!("seed-{}-{}", shard, dumped.get())), &bytes[..g.consumed().min(bytes.len())]);
+                        dumped.set(dumped.get() + 1);
+                    }
+                }
+                Ok(())
+            }
             Err(f) => {
                 // during shrinking only the *same* root cause counts as "still failing"
                 let mut fs = first_sig.borrow_mut();
@@ -646,4 +661,23 @@ pub fn run_check<E: Check>(opts: Opts) -> i32 {
     }
     println!("OK property={}", id);
     0
+}
+
+// ---- thin public wrappers for the libFuzzer entry point (src/fuzz.rs)
+
+pub fn exec_case_pub<E: Check>(check: &E, case: &E::Case) -> Result<(), Failure> {
+    let mut cx = Cx::default();
+    exec_case(check, case, &mut cx)
+}
+
+pub fn shrink_structural_pub<E: Check>(check: &E, case: E::Case, signature: &str) -> (E::Case, Failure) {
+    shrink_structural(check, case, signature, 1500)
+}
+
+pub fn write_replay_pub(root: &Path, id: &str, f: &Failure, case: &Value) -> PathBuf {
+    write_replay(root, id, f, case)
+}
+
+pub fn load_open_signatures(root: &Path, id: &str) -> BTreeSet<String> {
+    load_known(root).into_iter().filter(|k| k.property == id && k.status == "open").map(|k| k.signature).collect()
 }
